@@ -543,9 +543,6 @@ func rxBandsOf(sc *rxScope, stmts []ast.Stmt, i int) ([]band, bool) {
 				return nil, false
 			}
 		}
-		for _, b := range out {
-			_ = b
-		}
 		// every body of the run must have been a return for the order to mean first-match
 		for k := i; k < j; k++ {
 			is := stmts[k].(*ast.IfStmt)
@@ -574,7 +571,8 @@ func bandSwitch(p *rxPkg, fn string) ([]band, error) {
 		var walk func(list []ast.Stmt)
 		walk = func(list []ast.Stmt) {
 			for i := range list {
-				if bs, ok := rxBandsOf(sc, list, i); ok {
+				// the longest construct wins (a run of early returns also matches from its second statement on)
+				if bs, ok := rxBandsOf(sc, list, i); ok && len(bs) >= len(best) {
 					best = bs
 				}
 			}
